@@ -10,7 +10,7 @@
   crash plan, then `restart` if the crash fired, then the watch events the store change causes.  The pod-level half
   of the crash clause ("every existing pod keeps the IP it was bound with", after resync) belongs to model M4.
 -/
-import Galaxy.Lemmas.IpamC08
+import Galaxy.Lemmas.IpamInv4
 
 namespace Galaxy.Props.C05
 open Galaxy Galaxy.Ipam
@@ -38,34 +38,39 @@ theorem fact_shapes :
     Generated.Ipam.configurePoolListsUnderLock = true ∧ Generated.Ipam.allocateSpecificAtomic = true ∧
     Generated.Ipam.rollbackOnCreateFailure = true ∧ Generated.Ipam.rollbackCoversAllCreated = true ∧
     Generated.Ipam.memoryUpdatedAfterAllCreates = true ∧ Generated.Ipam.handlersMakeNoStoreCall = true ∧
-    Generated.Ipam.updateIsGetThenUpdate = true ∧ Generated.Ipam.walkOverflowSafe = true := by decide
+    Generated.Ipam.updateIsGetThenUpdate = true ∧ Generated.Ipam.walkOverflowSafe = true ∧
+    Generated.Ipam.unassignEventChecksReserved = true ∧ Generated.Ipam.rollbackKeepsUndeletedInMemory = true := by decide
 
 /-- `Agree` holds initially (empty process, empty store). -/
 theorem agree_init : Agree init := agree_init'
 
-/-- "After every completed operation, successful or failed, memory and store agree": every move — each of the nine
-    mutators with every argument, every admissible resolution of Go's map iteration, every fault plan (any set of
-    failing call indices, so in particular every single fault index; partially applied `ReserveIP` / `ReleaseIPs`
-    included) and every crash plan, the admin moves, event delivery, restart — preserves `Agree`, given `StepOK`
-    (`True` except for the two documented deviations, see the counter theorems). -/
-theorem agree_preserved (s : State) (op : Op) (h : Agree s) (hadm : op.admissible s = true) (hok : StepOK s op) :
-    Agree (step s op).1 := agree_step h op hadm hok
-
-/-- the same without side condition for every move except event delivery and multi-range allocation -/
-theorem agree_preserved_plain (s : State) (op : Op) (h : Agree s) (hadm : op.admissible s = true)
-    (hp : op.plain = true) : Agree (step s op).1 := by
+/-- "After every completed operation, successful or failed, memory and store agree", one step: every move except event
+    delivery — each of the nine mutators with every argument, every admissible resolution of Go's map iteration, every
+    fault plan (ANY set of failing call indices, so in particular every single fault index, rollback deletes included;
+    partially applied `ReserveIP` / `ReleaseIPs` included) and every crash plan, the admin moves, restart — preserves
+    `Agree` with NO side condition. -/
+theorem agree_preserved (s : State) (op : Op) (h : Agree s) (hadm : op.admissible s = true) (hp : op.plain = true) :
+    Agree (step s op).1 := by
   apply agree_step h op hadm
   cases op <;> first | trivial | (simp [Op.plain] at hp)
 
-/-- multi-range allocation under the property's single-fault quantifier: when no admin event is pending (so no create
-    can conflict) ANY single failing call index — create or rollback — preserves `Agree` -/
-theorem agree_preserved_allocRanges_single_fault (s : State) (key subnet : String) (ranges : List (List Range)) (a : Attr)
-    (choice : Option IP) (pl : Plan) (h : Agree s) (hq : s.pending = []) (h1 : pl.fails.length ≤ 1)
-    (hadm : (Op.allocRanges key subnet ranges a choice pl).admissible s = true) :
-    Agree (step s (.allocRanges key subnet ranges a choice pl)).1 :=
-  agree_step h _ hadm (Or.inr ⟨h1, freeUnstored_of_agree h hq⟩)
+/-- event delivery, one step: `Agree` says nothing about addresses with pending events, so from `Agree` alone the
+    delivered event must be known to be `Current`; the history-level theorem below needs no such hypothesis. -/
+theorem agree_preserved_deliver (s : State) (h : Agree s) (hcur : Current s) : Agree (step s .deliver).1 :=
+  agree_step h .deliver rfl hcur
 
-/-- lifted to every reachable state by induction over the history -/
+/-- the inductive invariant behind the history-level statement: `Inv` = `MemOK` + what is known about every address WITH
+    pending watch events (`PAt`).  EVERY admissible move (all mutators, arguments, choices, fault and crash plans, admin
+    moves, event delivery at any later time, restart) preserves it; the only assumption is `EnvOK`, which constrains the
+    administrator: no reservation is created for an address while a watch event for it is still on its way. -/
+theorem inv_preserved (s : State) (op : Op) (h : Inv s) (hadm : op.admissible s = true) (henv : EnvOK s op = true) :
+    Inv (step s op).1 := inv_step h op hadm henv
+
+/-- `Inv` is at least `Agree` -/
+theorem inv_implies_agree (s : State) (h : Inv s) : Agree s := agree_of_inv h
+
+/-- lifted to every reachable state by induction over the history: memory and store agree after every completed
+    operation of every history, for all arrival times of the watch events -/
 theorem agree_reachable (s : State) (h : Reach s) : Agree s := agree_reach h
 
 /-- "so a restarted galaxy-ipam reconstructs exactly the state it had": for every address without an undelivered
@@ -117,61 +122,77 @@ example : Reach (run init opsOK) ∧ (run init opsOK).alloc.get 5 ≠ none ∧ (
   simp only [run, List.foldl]
   refine Reach.step _ (Reach.step _ (Reach.step _ (Reach.step _ (Reach.step _ (Reach.step _ (Reach.step _ Reach.init
     ?_ ?_) ?_ ?_) ?_ ?_) ?_ ?_) ?_ ?_) ?_ ?_) ?_ ?_
-  all_goals first | decide | trivial | skip
-  · exact Or.inr ⟨by decide, by intro ip hip; revert ip; decide⟩
-  · show Current _; decide
+  all_goals decide
 
 /-- a crash plan that fires (hypothesis of `crash_restart_safe`) -/
 example : ((Op.release "pod-a" 3 { crashAfter := some 0 }).run (run init (opsOK.take 6))).2.err = some .crashed := by decide
 
-/-! ### the two places where the code leaves the property (known findings, reproduced by the harness) -/
+/-! ### the two defects this check found (fixed in /repo; the pre-fix shapes are selected by the regenerated facts
+    `unassignEventChecksReserved` / `rollbackKeepsUndeletedInMemory`), and the necessity of `EnvOK` -/
 
 def opsStale : List Op :=
   [.configure [pool1] [] {}, .adminReserve 2 "pool__reserved-for-node_" 0, .deliver,
    .release "pool__reserved-for-node_" 2 {}, .allocSpecific "pod-a" 2 attr1 {}, .deliver]
 
-/-- COUNTER (known finding `stale-reserved-watch-event-desyncs-cache`): a labelled FloatingIP is released through
-    IPAM, its address is allocated again, then the watch delete event of the labelled object arrives:
-    `handleFIPUnassign` frees whatever the cache holds for that address.  All moves are admissible; the last one is
-    not `Current`, and afterwards the store has an object for address 2 while memory says free. -/
+/-- the history which used to break C05 (a labelled FloatingIP is released through IPAM, its address is allocated
+    again, THEN the watch delete event of the labelled object arrives) is reachable and now harmless: the late event
+    leaves the new owner in place -/
+example : Reach (run init opsStale) ∧ ((run init opsStale).alloc.get 2).isSome = true := by
+  refine ⟨?_, by decide⟩
+  unfold opsStale
+  simp only [run, List.foldl]
+  refine Reach.step _ (Reach.step _ (Reach.step _ (Reach.step _ (Reach.step _ (Reach.step _ Reach.init
+    ?_ ?_) ?_ ?_) ?_ ?_) ?_ ?_) ?_ ?_) ?_ ?_
+  all_goals decide
+
+/-- COUNTER (pre-fix code, `unassignEventChecksReserved = false`): `handleFIPUnassign` frees whatever the cache holds —
+    the same late event frees the new owner's address in memory while the store keeps its object -/
 theorem stale_unassign_event_counter :
-    ¬ Agree (run init opsStale) ∧ ¬ Current (run init (opsStale.take 5)) := by
-  constructor
-  · intro h
-    rcases h.sync 2 (by decide) with ⟨e, he, _⟩ | h1
-    · have hp : (run init opsStale).pending = [] := by decide
-      rw [hp] at he; cases he
-    · have ha : (run init opsStale).alloc.get 2 = none := by decide
-      have hs : ((run init opsStale).store.get 2).isSome = true := by decide
-      rw [ha] at h1
-      rw [optEq_none_left h1] at hs
-      cases hs
-  · decide
+    let s5 := run init (opsStale.take 5)
+    let e : Event := { assign := false, ip := 2, key := "pool__reserved-for-node_", policy := 0 }
+    s5.pending = [e] ∧ (s5.store.get 2).isSome = true ∧
+    (fipUnassignEventG false { s5 with pending := [] } e).1.alloc.get 2 = none ∧
+    ((fipUnassignEventG true { s5 with pending := [] } e).1.alloc.get 2).isSome = true := by decide
 
 def opsRollback : List Op :=
   [.configure [pool1] [] {}, .adminReserve 4 "pool__reserved-for-node_" 0,
    .allocRanges "pod-b" "10.0.1.0/24" [[{ first := 2, last := 2 }], [{ first := 4, last := 4 }]] attr1 none { fails := [2] }]
 
-/-- COUNTER (known finding `rollback-delete-fault-leaks-object`): the rollback of `AllocateInSubnetsAndIPRange`
-    ignores delete errors.  With an admin reservation whose event has not arrived the second create conflicts (no
-    injected fault), the SINGLE injected fault hits the rollback delete: object 2 stays stored, address 2 stays free. -/
+/-- the second history which used to break C05 (the second create conflicts with a reservation whose event has not
+    arrived, the single injected fault hits the rollback delete) now ends with address 2 allocated in memory AND store -/
+example : Reach (run init opsRollback) ∧ ((run init opsRollback).alloc.get 2).isSome = true ∧
+    ((run init opsRollback).store.get 2).isSome = true := by
+  refine ⟨?_, by decide, by decide⟩
+  unfold opsRollback
+  simp only [run, List.foldl]
+  refine Reach.step _ (Reach.step _ (Reach.step _ Reach.init ?_ ?_) ?_ ?_) ?_ ?_
+  all_goals decide
+
+/-- COUNTER (pre-fix code, `rollbackKeepsUndeletedInMemory = false`): the rollback ignored the failed delete — object 2
+    stays stored while address 2 stays free in memory -/
 theorem rollback_delete_fault_counter :
-    (run init opsRollback).alloc.get 2 = none ∧ 2 ∈ (run init opsRollback).free ∧
-      ((run init opsRollback).store.get 2).isSome = true ∧ ¬ isPending (run init opsRollback) 2 := by
-  refine ⟨by decide, by decide, by decide, ?_⟩
-  rintro ⟨e, he, hip⟩
-  have hp : (run init opsRollback).pending.all (fun e => e.ip != 2) = true := by decide
-  have := List.all_eq_true.mp hp e he
-  simp [hip] at this
+    let s2 := run init (opsRollback.take 2)
+    let r := mkRec "pod-b" attr1 s2.clock
+    let res := createAll true { fails := [2] } r [2, 4] [] 0 s2.store
+    res.2.1 = some .exists_ ∧ res.2.2 = [2] ∧
+    (allocRangesFinish false s2 r [2, 4] res).1.alloc.get 2 = none ∧
+    ((allocRangesFinish false s2 r [2, 4] res).1.store.get 2).isSome = true ∧
+    ((allocRangesFinish true s2 r [2, 4] res).1.alloc.get 2).isSome = true := by decide
 
-def opsTwoFaults : List Op :=
-  [.configure [pool1] [] {},
-   .allocRanges "pod-b" "10.0.1.0/24" [[{ first := 2, last := 2 }], [{ first := 4, last := 4 }]] attr1 none { fails := [1, 2] }]
+def opsRace : List Op :=
+  [.configure [pool1] [] {}, .adminReserve 2 "res" 0, .deliver, .adminUnreserve 2, .adminReserve 2 "res" 2,
+   .updateAttr "res" 2 attr1 {}, .deliver, .deliver]
 
-/-- COUNTER (outside the single-fault quantifier): a failing create followed by a failing rollback delete — two faults
-    in one operation — leaks the first object; this is the one place where a second fault matters. -/
-theorem rollback_second_fault_counter :
-    (run init opsTwoFaults).pending = [] ∧ (run init opsTwoFaults).alloc.get 2 = none ∧
-      ((run init opsTwoFaults).store.get 2).isSome = true := by decide
+/-- COUNTER (necessity of the environment assumption `EnvOK`): the administrator deletes a reservation and creates it
+    again before the delete event is delivered, IPAM updates the record meanwhile: the late add event then overwrites the
+    cache with what the administrator wrote, the store has what IPAM wrote.  The fifth move violates `EnvOK`. -/
+theorem admin_recreate_race_counter :
+    EnvOK (run init (opsRace.take 4)) (.adminReserve 2 "res" 2) = false ∧ ¬ Agree (run init opsRace) := by
+  refine ⟨by decide, ?_⟩
+  intro h
+  rcases h.sync 2 (by decide) with ⟨e, he, _⟩ | h1
+  · have hp : (run init opsRace).pending = [] := by decide
+    rw [hp] at he; cases he
+  · revert h1; decide
 
 end Galaxy.Props.C05
